@@ -357,7 +357,10 @@ class PayloadSA(Payload):
         if len(data):
             offset = 0
             while offset < len(data):
-                more, _, length = unpack_from('>BBH', data, offset)
+                try:
+                    more, _, length = unpack_from('>BBH', data, offset)
+                except struct_error:
+                    raise InvalidSyntax('Error parsing Proposal header')
                 start = offset + 4
                 end = offset + length
                 proposal = Proposal.parse(data[start:end])
@@ -765,8 +768,11 @@ class PayloadSK(Payload):
     def decrypt(self, crypto):
         iv = self.ciphertext[:crypto.cipher.block_size]
         ciphertext = self.ciphertext[crypto.cipher.block_size:-crypto.integrity.hash_size]
-        decrypted = crypto.cipher.decrypt(crypto.sk_e, bytes(iv), bytes(ciphertext))
-        padlen = decrypted[-1]
+        try:
+            decrypted = crypto.cipher.decrypt(crypto.sk_e, bytes(iv), bytes(ciphertext))
+            padlen = decrypted[-1]
+        except (ValueError, IndexError):
+            raise InvalidSyntax('Error decrypting Payload SK.')
         return iv, decrypted[:-1 - padlen]
 
     @classmethod
